@@ -39,19 +39,13 @@ structure View where
   crashed : Bool := false
   deriving DecidableEq, Repr, Inhabited
 
-def cancelledOf (s : State) (k : EnvId) : Nat :=
-  ((s.cancelled.filter (fun c => decide (c.1 = k))).map (·.2)).foldl (· + ·) 0
-
-def startedOf (s : State) (k : EnvId) : Nat :=
-  ((s.started.filter (fun c => decide (c.1 = k))).map (·.2)).foldl (· + ·) 0
-
 def viewOf (s : State) : View :=
   { envs := s.envs.map (fun E => { env := E.id, state := E.state, dets := E.dets, tasks := E.tasks, tearing := E.tearing }),
     roster := s.roster.map (fun t => { task := t.id, owner := t.parent, locked := t.isLocked,
                                        state := if t.isLocked then some t.state else none }),
     dets := s.activeDets,
     master := s.master.map (fun m => { task := m.id, label := m.label, mesos := m.mesos, killed := m.killed }),
-    calls := (s.started.map (·.1)).eraseDups.map (fun k => (k, startedOf s k, cancelledOf s k)),
+    calls := s.envs.map (fun E => (E.id, E.started, E.cancelled)) ++ s.dead,
     crashed := s.crashed }
 
 end Own
